@@ -176,6 +176,7 @@ def misc_jobs(tier):
 
 # extension modules merged into this property's job list (vdriver.ext_jobs / ext_meta)
 EXT = [
+    ("C10_c10d", None),
     ("C10_msc", None),
 ]
 
